@@ -6,7 +6,9 @@ void PolarGrid::RadialAnisotropicDivision(std::vector<double>& r_temp, const dou
 {
     // Calculate the percentage of refinement_radius.
     const double percentage = (refinement_radius - R0) / (R - R0);
-    assert(percentage >= 0.0 && percentage <= 1.0);
+    if (!(percentage >= 0.0 && percentage <= 1.0)) {
+        throw std::invalid_argument("The refinement radius of an anisotropic grid must lie in [R0, Rmax].\n");
+    }
 
     // 1) uniform division with nr=2^dummy_lognr - 2^aniso
     // 2) remaining nodes are added by refining the part centered around 2/3 of r
@@ -44,6 +46,10 @@ void PolarGrid::RadialAnisotropicDivision(std::vector<double>& r_temp, const dou
 
     se     = floor(nr * percentage) - n_elems_refined / 2;
     int ee = se + n_elems_refined;
+    if (se < 0 || ee > nr) {
+        throw std::invalid_argument("The refined region of the anisotropic grid does not fit into [R0, Rmax]: choose "
+                                    "a refinement radius further inside or a smaller anisotropic factor.\n");
+    }
     // takeout
     int st = ceil((double)n_elems_refined / 4.0 + 1) - 1;
     int et = floor(3 * ((double)n_elems_refined / 4.0));
@@ -77,7 +83,7 @@ void PolarGrid::RadialAnisotropicDivision(std::vector<double>& r_temp, const dou
     // such that the total size is 8*x+1 (or we do not refine)
     nr        = nr + r_set.size();
     int shift = 0;
-    shift     = std::min(nr % 8 - 1, (int)r_set.size());
+    shift     = std::min((nr + 7) % 8, (int)r_set.size()); /* (nr - 1) mod 8, never negative */
     itr       = r_set.begin();
     std::advance(itr, shift);
     r_set.erase(r_set.begin(), itr);
